@@ -286,8 +286,11 @@ func (e *c06Env) runCase(r *rand.Rand, kind string, n int, via Via, faults map[s
 	env := e.Env
 	// A request that never returns yields no signature, so it is not this property's violation (completion under
 	// faults is watched by C15), but it must not hold this check up until the overall watchdog.
-	wd := time.AfterFunc(90*time.Second, func() {
-		fmt.Printf("INCONCLUSIVE property=C06 reason=a %s request of %d entries did not return within 90 s under faults %v\n", kind, n, faults)
+	wd := time.AfterFunc(240*time.Second, func() {
+		fmt.Printf("INCONCLUSIVE property=C06 reason=a %s request of %d entries did not return within 240 s under faults %v\n", kind, n, faults)
+		// All stacks, so that the stall can be attributed afterwards (see DESIGN 9.3, "one unexplained stall").
+		buf := make([]byte, 1<<22)
+		os.Stdout.Write(buf[:runtime.Stack(buf, true)])
 		os.Exit(2)
 	})
 	defer wd.Stop()
